@@ -10,7 +10,8 @@ open ZygoVerif.Core ZygoVerif.VM
 /-! ## The expression step, the induction -/
 
 theorem fclaimE_succ {n : Nat} (hE : FClaimE n) (hB : FClaimB n) (hC : FClaimC n) (hA : FClaimA n) (hU : FClaimU n)
-    (hS : FClaimS n) (hN : FClaimN n) (hL : FClaimL n) (hP : FClaimP n) (hV : FClaimV n) : FClaimE (n + 1) := by
+    (hS : FClaimS n) (hN : FClaimN n) (hL : FClaimL n) (hP : FClaimP n) (hV : FClaimV n) (hF : FClaimF n) :
+    FClaimE (n + 1) := by
   intro fnOk self e he isFn c gs r hc hfn m s rs env pre post hrel hgen hseg
   cases e with
   | int x =>
@@ -212,11 +213,15 @@ theorem fclaimE_succ {n : Nat} (hE : FClaimE n) (hB : FClaimB n) (hC : FClaimC n
       exact ⟨he.1.1.1.1.1.1.1, he.1.1.1.1.1.1.2⟩
     obtain ⟨rfl, rfl⟩ := hfo
     exact simF_defn name ps body he isFn c gs r hc hrel (hgen rfl) hseg
-  | for_ _ _ _ _ _ | break_ _ | continue_ _ | assign _ _ | bad _ => simp [Ff] at he
+  | for_ label init test incr body =>
+    rw [Ff] at he
+    simp only [Bool.and_eq_true] at he
+    exact fclaimE_for hE hF he.1.1.1 he.1.1.2 he.1.2 he.2 isFn c gs r hc hfn m s rs env pre post hrel hgen hseg
+  | break_ _ | continue_ _ | assign _ _ | bad _ => simp [Ff] at he
 
 theorem fclaims_zero : FClaimE 0 ∧ FClaimB 0 ∧ FClaimC 0 ∧ FClaimA 0 ∧ FClaimU 0 ∧ FClaimS 0 ∧ FClaimN 0 ∧ FClaimL 0
-    ∧ FClaimP 0 ∧ FClaimV 0 := by
-  refine ⟨?_, ?_, ?_, ?_, ?_, ?_, ?_, ?_, ?_, ?_⟩
+    ∧ FClaimP 0 ∧ FClaimV 0 ∧ FClaimF 0 := by
+  refine ⟨?_, ?_, ?_, ?_, ?_, ?_, ?_, ?_, ?_, ?_, ?_⟩
   · intro fnOk self e he isFn c gs r hc hfn m s rs env pre post hrel hgen hseg
     rw [Ref.eval]; trivial
   · intro fnOk self es hne hes isFn c gs r hc hfn m s rs env pre post hrel hgen hseg
@@ -237,14 +242,18 @@ theorem fclaims_zero : FClaimE 0 ∧ FClaimB 0 ∧ FClaimC 0 ∧ FClaimA 0 ∧ F
     rw [Ref.evalList]; trivial
   · intro fnOk self es hes isFn c gs r hc hfn m s rs env pre post hrel hgen hseg
     rw [Ref.evalList]; trivial
+  · intro fnOk self label test incr body htest hincr hbody isFn c gb rb g2 gt rt g4 gi ri g5 hcb hct hci hfn
+      L ci pre post m σ rs fr D hin hpc hd hrel hgen
+    rw [Ref.loop]; trivial
 
 theorem fclaims : ∀ n, FClaimE n ∧ FClaimB n ∧ FClaimC n ∧ FClaimA n ∧ FClaimU n ∧ FClaimS n ∧ FClaimN n ∧ FClaimL n
-    ∧ FClaimP n ∧ FClaimV n
+    ∧ FClaimP n ∧ FClaimV n ∧ FClaimF n
   | 0 => fclaims_zero
   | n + 1 => by
-    obtain ⟨hE, hB, hC, hA, hU, hS, hN, hL, hP, hV⟩ := fclaims n
-    exact ⟨fclaimE_succ hE hB hC hA hU hS hN hL hP hV, fclaimB_succ hE hB, fclaimC_succ hE hC, fclaimA_succ hE hA,
-      fclaimU_succ hB, fclaimS_succ hE hS, fclaimN_succ hE hN, fclaimL_succ hE hL, fclaimP_succ hE hP, fclaimV_succ hE hV⟩
+    obtain ⟨hE, hB, hC, hA, hU, hS, hN, hL, hP, hV, hF⟩ := fclaims n
+    exact ⟨fclaimE_succ hE hB hC hA hU hS hN hL hP hV hF, fclaimB_succ hE hB, fclaimC_succ hE hC, fclaimA_succ hE hA,
+      fclaimU_succ hB, fclaimS_succ hE hS, fclaimN_succ hE hN, fclaimL_succ hE hL, fclaimP_succ hE hP, fclaimV_succ hE hV,
+      fclaimF_succ hE hB hF⟩
 
 /-- **Segment lemma for F2 expressions.** -/
 theorem segment_Ff (fnOk : Bool) (self : String) (e : Expr) (he : Ff fnOk self e = true) (isFn : Nat → Bool) (c : Ctx)
